@@ -250,6 +250,8 @@ func TestVerif(t *testing.T) {
 			for _, lbl := range []string{"keymaster-" + c.Pref + "-alice", "keymaster-ed25519-alice", "other-tool-alice"} {
 				vcSeedAgent(ag.Agent, lbl, lbl != "other-tool-alice" && strings.Contains(lbl, c.Pref))
 			}
+			// ... and a second leftover under the main label (two overlapping earlier runs, or ssh-add of the fallback files)
+			vcSeedAgent(ag.Agent, "keymaster-"+c.Pref+"-alice", false)
 			sock := filepath.Join(home, "agent.sock")
 			lst = vcServeAgent(sock, ag)
 			os.Setenv("SSH_AUTH_SOCK", sock)
